@@ -1,9 +1,11 @@
 """C19 — compiled rules do not depend on how internal storage grew.
 
-Proof layer: Thm/C19.lean (relocation is invisible: `grow_abs`, any operation sequence under any
-initial capacity and any move schedule gives the same abstract arena: `alloc_seq_abs`, hence the same
-saved bytes: `save_base_indep`).  Tie: (1) the Lean arena model runs the same random operation sequences
-as the real arena API (h_arena) and every result is compared; (2) the construct corpus of C08 is compiled
+Proof layer: Thm/C19.lean (relocation is invisible: `grow_abs`; the arena API refines an address-free
+abstract machine: `exec_refines`, `run_refines`; any operation sequence inside the protocol `OpsOK` under
+any initial size, capacity, address, always-move setting and realloc schedule gives the same observations,
+the same abstract arena and the same saved bytes: `run_abs`).  Tie: (1) the Lean arena model runs the same
+random operation sequences as the real arena API (h_arena), each under two configurations; every result is
+compared with the model and the two implementation runs with each other; (2) the construct corpus of C08 is compiled
 under every initial capacity of a Fibonacci ladder from 1 byte to 1 MiB and with the always-move hook,
 and saved image, externals and scan results must equal the default build's; a stale pointer is an
 AddressSanitizer report in the forked child (its summary + the rule set are the replay)."""
@@ -14,18 +16,32 @@ from vf.checks import arena_common as ac
 PID = "C19"
 THM = ["YaraModel.Thm.C19"]
 MANIFEST = dict(
-    technique="Lean 4 proof over an executable model of arena.c (growth with pointer fix-up is invisible in the abstract arena, for every capacity, "
-              "address and allocation sequence) + op-sequence correspondence with the real arena API + differential compilation under forced growth",
+    technique="Lean 4 refinement proof: the executable model of arena.c simulates an address-free abstract machine, for every operation sequence inside "
+              "the protocol and every configuration (initial size, capacities, addresses, always-move, realloc schedule) + op-sequence correspondence "
+              "with the real arena API incl. the same op list run under two configurations + differential compilation under forced growth",
     text="proof: Thm/C19.lean proves on the arena model (Model/Arena.lean, arena.c line by line; comparison operators and constants regenerated from the "
-         "source) that for every arena obeying the protocol WF, every buffer, every new capacity and every admissible answer of realloc: a growth (with the "
-         "fix-up loop) leaves the abstract arena unchanged (grow_abs) and leaves no stale reference (grow_wf: every registered slot still holds null or a "
-         "pointer into used bytes at the new address); one allocation is a function of the abstract arena (alloc_abs); the saved bytes are a function of the "
-         "abstract arena (save_of_abs, grow_save); and — partial — any sequence of allocations gives the same abstract arena for every initial size, "
-         "capacity, always-move setting and allocator schedule (alloc_seq_abs_partial: allocation requests only; sequences that also register slots and "
-         "store pointers are covered by the op-sequence correspondence, not by a theorem). The model is tied to arena.c by random operation sequences run "
-         "by both. That the real compiler obeys WF (keeps references, not raw pointers, across allocations) is sampled: a generated corpus of rule sets over "
-         "all constructs is compiled under a ladder of initial capacities from 1 byte to 1 MiB and with every allocation forced to move its buffer, under "
-         "ASan; images must be byte-identical and scan results equal.",
+         "source) that the arena API refines an address-free abstract machine (Spec/Arena.lean astep/arun: buffers as byte lists, registered slots holding "
+         "(buffer, offset) references). exec_refines: for every arena obeying the protocol WF, every operation of the model (write_data, zeroed "
+         "allocation, allocate_struct with relocatable fields, make_ptr_relocatable, storing a pointer obtained from ref_to_ptr into a registered slot, "
+         "write-and-register a pointer, register-and-fill a slot, memcpy into allocated bytes, reading a slot back through ptr_to_ref, ref_to_ptr followed "
+         "by ptr_to_ref) that the abstract machine accepts, every always-move setting, initial size, capacity, base address and admissible realloc "
+         "answer: the operation returns the abstract machine's address-free observation, keeps WF (no stale pointer, no assert, nothing out of bounds) and "
+         "yields the abstract machine's abstract content — or ERROR_INSUFFICIENT_MEMORY. run_refines lifts this by induction to every operation list; "
+         "run_abs: two runs of the same list from arenas with equal abstract content under different configurations and realloc schedules give equal "
+         "observations at every step, equal abstract content and byte-identical saved images (create_run_abs: from yr_arena_create with any two initial "
+         "sizes). The protocol is the decidable predicate OpsOK = 'the abstract run is defined' (slots registered while holding NULL or filled right "
+         "at registration, pointers stored are NULL or point to used bytes, memcpy does not touch registered slots, the pointer written by "
+         "write-and-register does not point into the buffer being appended to: no raw pointer kept across an allocation of its target). Also grow_abs / "
+         "grow_wf (one growth is invisible / leaves no stale reference), alloc_abs, alloc_seq_abs (allocation-only special case), save_of_abs, grow_save. "
+         "run_defined: if no zeroed allocation goes to a buffer that earlier received a raw one (KindsOK, decidable on the list) the model never flags "
+         "contents as unspecified (arena.c clears memory only on the growth path), whatever the configuration. Outside the theorems: yr_arena_release; a "
+         "pointer stored into an unregistered slot and registered only after further allocations (outside OpsOK: the raw pointer would be stale); "
+         "ERROR_INSUFFICIENT_MEMORY (reaching the 4 GB limit does depend on the initial size) is the one admitted difference between runs. The model is tied to arena.c by random operation sequences run by both; every "
+         "sequence is run under two configurations (other initial size and/or always-move toggled) and the two IMPLEMENTATION runs must agree on every "
+         "address-free output and saved image on the prefix inside OpsOK (computed by the abstract machine in the driver), which also re-checks the model "
+         "against the abstract machine at run time. That the real compiler obeys the protocol (keeps references, not raw pointers, across allocations) is "
+         "sampled: a generated corpus of rule sets over all constructs is compiled under a ladder of initial capacities from 1 byte to 1 MiB and with "
+         "every allocation forced to move its buffer, under ASan; images must be byte-identical and scan results equal.",
     design_ref="DESIGN.md §5 C19, §4 D9",
     note=core.TB + "The compiler's use of the arena (dozens of call sites) is covered by sampling rule constructs, not by proof. "
          "Built with -fsanitize-recover=alignment,bounds so that two benign UBSan reports inside arena.c are recorded as findings instead of ending the run.")
@@ -58,13 +74,13 @@ def run(tier, replay=None):
     ubs = set()
 
     if replay and replay.get("part") == "ops":
-        f, cov, u = ac.ops_tie(chk, b, 1, PID + "/ops", replay_case=replay["case"])
+        f, cov, u = ac.ops_tie(chk, b, 1, PID + "/ops", replay_case=replay["case"], replay_twin=replay.get("twin"))
         core.handle_broken_proof(chk, lres, f)
         return chk.finish("proof")
 
     # ---- (1) model <-> arena.c on operation sequences
     if lres.get("driver_ok") and not replay:
-        f, cov, u = ac.ops_tie(chk, b, 400 if tier == "quick" else 6000, PID + "/ops", loads="none")
+        f, cov, u = ac.ops_tie(chk, b, 400 if tier == "quick" else 6000, PID + "/ops", loads="none", twin=True)
         found |= f
         ubs |= u
         chk.cov.update(cov)
